@@ -2,6 +2,8 @@
 //   logmark            start capturing the module's log (attached to the current proxy)
 //   logdump            print the captured lines that report accumulated data (free-energy derivative of
 //                      a staged restraint, "dA/dLambda") as `LOG <line>`; clears the buffer
+//   bufsave text|binary  keep the state as an in-memory buffer (text: write_restart_string, binary: write_state_buffer)
+//   bufload text|binary  give that buffer to the module as its input state (input state string / set_input_state_buffer)
 //   statestr text|binary   print the state the module would write now, as one line of hex bytes
 // Everything else goes through the public engine interface (harness/vsim.h): the observables of the
 // resume experiment are the per-step values/energies/forces and the state files themselves.
@@ -9,6 +11,8 @@
 
 struct c03_session : public vsim_session {
   std::ostringstream cap;
+  std::string buf_text;
+  std::vector<unsigned char> buf_bin;
   c03_session(std::ostream *o) : vsim_session(o) {}
 
   bool exec_extra(std::string const &cmd, std::vector<std::string> const &a, std::istream &) override
@@ -63,6 +67,31 @@ struct c03_session : public vsim_session {
       }
       outf.close();
       o << "SHUFFLED " << rest.size() << "\n";
+      return true;
+    }
+    if (cmd == "bufsave") {
+      // bufsave text|binary: the state as the engine-side buffer (GROMACS checkpoint, `cv savetostring`), kept in this session
+      cvm::clear_error();
+      int err;
+      if (a.size() && a[0] == "binary") { buf_bin.clear(); err = proxy->colvars->write_state_buffer(buf_bin); }
+      else { buf_text.clear(); err = proxy->colvars->write_restart_string(buf_text); }
+      o << "BUFSAVE err=" << vs_errclass(err | cvm::get_error()) << "\n";
+      cvm::clear_error();
+      return true;
+    }
+    if (cmd == "bufload") {
+      // bufload text|binary: hand the buffer kept by bufsave to the (fresh) module and let it set up its input
+      cvm::clear_error();
+      int err = COLVARS_OK;
+      if (a.size() && a[0] == "binary") {
+        std::vector<unsigned char> copy(buf_bin);
+        err |= proxy->colvars->set_input_state_buffer(copy);
+      } else {
+        proxy->input_stream_from_string("input state string", buf_text);
+      }
+      err |= proxy->colvars->setup_input();
+      o << "LOAD err=" << vs_errclass(err | cvm::get_error()) << " it=" << cvm::step_absolute() << "\n";
+      cvm::clear_error();
       return true;
     }
     if (cmd == "statestr") {
